@@ -17,9 +17,10 @@ if [ -z "$SKIPTESTS" ]; then
   case "$t" in *"1 failed, 300 passed"*) ;; *) echo "RESULT $prop tests-do-not-pass"; exit 4;; esac
 fi
 (cd "$SCR" && PYTHONPATH="$SCR/src" timeout 600 /venv/bin/python -W ignore "$dir/demo.py" >/dev/null 2>&1); d1=$?
-git -C "$SCR" stash -q
+# (no git stash here: the stash is shared by all worktrees of a repository)
+git -C "$SCR" apply -R "$dir/patch.diff"
 (cd "$SCR" && PYTHONPATH="$SCR/src" timeout 600 /venv/bin/python -W ignore "$dir/demo.py" >/dev/null 2>&1); d0=$?
-git -C "$SCR" stash pop -q
+git -C "$SCR" apply "$dir/patch.diff"
 echo "demo: with-patch exit=$d1, without exit=$d0"
 if [ $d1 -eq 0 ] || [ $d0 -ne 0 ]; then echo "RESULT $prop demo-not-discriminating"; exit 5; fi
 caught=""
